@@ -159,9 +159,11 @@ func installStr(c *Ctx) {
 		arr.e = append(arr.e, cur)
 		return Slice{back: arr, len: len(arr.e), cap: len(arr.e)}
 	}
+	in["internal/stringslite.Clone"] = func(c *Ctx, a []Value) Value { return a[0] }
+	in["strings.Clone"] = func(c *Ctx, a []Value) Value { return a[0] }
 	in["fmt.Sprintf"] = func(c *Ctx, a []Value) Value { return c.sprintf(a) }
-	in["fmt.Sprint"] = func(c *Ctx, a []Value) Value { return strConst("<opaque>") }
-	in["fmt.Sprintln"] = func(c *Ctx, a []Value) Value { return strConst("<opaque>\n") }
+	in["fmt.Sprint"] = func(c *Ctx, a []Value) Value { return opaqueStr() }
+	in["fmt.Sprintln"] = func(c *Ctx, a []Value) Value { return opaqueStr() }
 	in["fmt.Printf"] = func(c *Ctx, a []Value) Value { return Tuple{BV(0, 64), Iface{}} }
 	in["fmt.Println"] = func(c *Ctx, a []Value) Value { return Tuple{BV(0, 64), Iface{}} }
 	in["fmt.Print"] = func(c *Ctx, a []Value) Value { return Tuple{BV(0, 64), Iface{}} }
@@ -182,8 +184,8 @@ func installStr(c *Ctx) {
 	in["fmt.Fprintf"] = func(c *Ctx, a []Value) Value {
 		return writeTo(c, a[0].(Iface), c.sprintf(a[1:]).(*Str))
 	}
-	in["fmt.Fprint"] = func(c *Ctx, a []Value) Value { return writeTo(c, a[0].(Iface), strConst("<opaque>")) }
-	in["fmt.Fprintln"] = func(c *Ctx, a []Value) Value { return writeTo(c, a[0].(Iface), strConst("<opaque>\n")) }
+	in["fmt.Fprint"] = func(c *Ctx, a []Value) Value { return writeTo(c, a[0].(Iface), opaqueStr()) }
+	in["fmt.Fprintln"] = func(c *Ctx, a []Value) Value { return writeTo(c, a[0].(Iface), opaqueStr()) }
 	in["fmt.Errorf"] = func(c *Ctx, a []Value) Value {
 		// keep %w chain: find first error arg
 		args := a[1].(Slice)
@@ -254,14 +256,47 @@ func (c *Ctx) sprintf(a []Value) Value {
 				continue
 			}
 		case *Term:
-			if v.isC && (verb == 'd' || verb == 'v') && spec == "" {
+			if v.width > 0 && isInteger(iv.t) && (verb == 'd' || verb == 'v') && strings.Trim(spec, "0123456789") == "" {
 				_, signed := intWidth(iv.t)
-				if signed {
-					out.b = append(out.b, strConst(strconv.FormatInt(sext(v.cval, v.width), 10)).b...)
-				} else {
-					out.b = append(out.b, strConst(strconv.FormatUint(v.cval, 10)).b...)
+				num := c.numeral(v, signed)
+				width, _ := strconv.Atoi(strings.TrimLeft(spec, "0"))
+				zero := strings.HasPrefix(spec, "0")
+				digits := num.b
+				neg := len(digits) > 0 && digits[0].isC && digits[0].cval == '-'
+				if zero && neg {
+					out.b = append(out.b, digits[0])
+					digits = digits[1:]
+					width--
 				}
+				for k := len(digits); k < width; k++ {
+					if zero {
+						out.b = append(out.b, BV('0', 8))
+					} else {
+						out.b = append(out.b, BV(' ', 8))
+					}
+				}
+				out.b = append(out.b, digits...)
 				continue
+			}
+			if v.width == 32 && verb == 'c' && spec == "" {
+				out.b = append(out.b, c.runeToStr(v, iv.t).b...)
+				continue
+			}
+			if v.width == 0 && (verb == 't' || verb == 'v') && v.isC {
+				out.b = append(out.b, strConst(strconv.FormatBool(v.cval == 1)).b...)
+				continue
+			}
+		}
+		// error values: their Error() text
+		if iv.t != nil && (verb == 's' || verb == 'v' || verb == 'w') {
+			if m := c.method(iv.t, "Error"); m != nil && m.Signature.Params().Len() == 0 && m.Signature.Results().Len() == 1 {
+				if p, isPtr := iv.v.(*Ptr); !isPtr || p != nil {
+					r := c.call(m, []Value{iv.v})
+					if rs, ok := r.(*Str); ok {
+						out.b = append(out.b, rs.b...)
+						continue
+					}
+				}
 			}
 		}
 		// Stringer?
@@ -274,7 +309,7 @@ func (c *Ctx) sprintf(a []Value) Value {
 				}
 			}
 		}
-		out.b = append(out.b, strConst("<opaque>").b...)
+		out.b = append(out.b, opaqueStr().b...)
 	}
 	return out
 }
